@@ -16,7 +16,7 @@ from core import Case
 from props.c13 import rand_annotation, enum_annotations, arr, F, U
 
 PID = "C12"
-LEAN_MODULES = ["MirProofs.Props.C12"]
+LEAN_MODULES = ["MirProofs.Props.C12", "MirProofs.Props.C12_Segment"]
 RULE = ("annotations on the 1/32 lattice; refinements cut 1-5 intervals at interior lattice points, incl. points "
         "that coincide with the other annotation's boundaries and with frame times; weights rescaled by powers "
         "of two; non-trivial = the call returns a score (no exception)")
@@ -27,8 +27,9 @@ ASSUMPTIONS = [
     "belongs to C10/C11",
 ]
 UNPROVED = [
-    "frame-based segment metrics and hierarchy.lmeasure are functions of the frame labels only (their models "
-    "belong to C16/C17; here: samples_split_invariant + refinement oracle)",
+    "hierarchy.lmeasure is a function of the frame labels only (its model belongs to C17; here: "
+    "samples_split_invariant + refinement oracle); for the six frame-based segment metrics this is now a theorem "
+    "(Props/C12_Segment.lean: scores_split_ref / scores_split_est, cuts at interior points s < r < e)",
     "the T-measure's lca is not label-based and is not claimed",
 ]
 
